@@ -46,6 +46,10 @@ class MMap:
 
 
 
+def MSet_types():
+    return ()
+
+
 class Sink:
     """a `&mut Vec<_>` that records what is pushed"""
 
@@ -68,6 +72,19 @@ class PassWorld(World):
             for _p, it in all_items(items):
                 if it["k"] == "Fn" and it.get("body") is not None:
                     self.free.setdefault(it["name"], it)
+        # default methods of traits become methods of every implementing type that does not override them
+        traits, impls = {}, []
+        for f in files:
+            for _p, it in all_items(facts.ast().get(f) or []):
+                if it["k"] == "Trait":
+                    traits[it["name"]] = {x["name"]: (x, f) for x in it.get("items", []) if x.get("k") == "Fn" and x.get("body") is not None}
+                elif it["k"] == "Impl" and it.get("trait"):
+                    impls.append((it["trait"].split("<")[0].strip(), it["self_ty"].split("<")[0].strip(), {x["name"] for x in it.get("items", []) if x.get("k") == "Fn"}))
+        for tr, ty, own in impls:
+            for nm, (fn_, f_) in traits.get(tr, {}).items():
+                if nm not in own and (ty, nm) not in self.methods:
+                    self.methods[(ty, nm)] = (fn_, f_)
+        self.stubs = {}
         # struct-like variants: name -> enum (for patterns written with glob imports)
         self.variant_owner = {}
         for f in files:
@@ -180,11 +197,13 @@ class PassWorld(World):
         k = e["k"]
         if k == "Struct":
             name = last(e["path"])
-            if name not in self.structs and name in self.variant_owner and len(self.variant_owner[name]) == 1:
+            segs_s = e["path"].split("::")
+            owner = segs_s[-2] if len(segs_s) >= 2 and segs_s[-2] in self.enums and name in self.enums[segs_s[-2]] else (list(self.variant_owner[name])[0] if name in self.variant_owner and len(self.variant_owner[name]) == 1 else None)
+            if name not in self.structs and owner is not None:
                 fields = {}
                 for f in e["fields"]:
                     fields[f["name"]] = self.eval(f["e"], env, uses)
-                return ("V", list(self.variant_owner[name])[0], name, fields)
+                return ("V", owner, name, fields)
         if k == "Try":
             v = self.eval(e["e"], env, uses)
             if isinstance(v, tuple) and len(v) > 2 and v[0] == "S" and v[1] in ("Ok", "Err"):
@@ -202,6 +221,8 @@ class PassWorld(World):
                     return fn_(p0[len(prefix):], args)
             if p0 in ("Ok", "Err") and len(e["args"]) == 1:
                 return S(p0, self.eval(e["args"][0], env, uses))
+            if p0 in ("Box::new", "Rc::new", "Arc::new", "std::boxed::Box::new") and len(e["args"]) == 1:
+                return self.eval(e["args"][0], env, uses)  # a box is its content
         if k == "Index":
             b = self.eval(e["base"], env, uses)
             if e["index"]["k"] == "Range":
@@ -237,6 +258,9 @@ class PassWorld(World):
                 for a in e["args"]:
                     self.eval(a, env, uses)
                 return Sink()
+            if p in env and isinstance(env[p], tuple) and env[p] and env[p][0] == "C":
+                args = [self.eval(a, env, uses) for a in e["args"]]
+                return self.apply(env[p], args, uses)
             if p in env and isinstance(env[p], tuple) and env[p] and env[p][0] == "PY":
                 args = [self.eval(a, env, uses) for a in e["args"]]
                 return env[p][1](*args)
@@ -246,6 +270,16 @@ class PassWorld(World):
             if "::" not in p and p in self.free and p not in env:
                 args = [self.eval(a, env, uses) for a in e["args"]]
                 return self._free_call(p, args)
+            sg_ = p.split("::")
+            if self.lenient_opaque and len(sg_) >= 2 and p not in env and (sg_[-2], sg_[-1]) not in self.methods and sg_[-1] not in ("Some", "Ok", "Err", "max", "min") and sg_[-2] not in self.enums and sg_[-1] not in self.structs and sg_[-2][:1].isupper() and sg_[-2] != "Self" and sg_[-2] not in VEC_TYPES and sg_[-2] not in MAP_TYPES:
+                args = [self.eval(a, env, uses) for a in e["args"]]
+                if not any(isinstance(a, (Sink, MMap)) and n_.get("k") == "Ref" and n_.get("mut") for a, n_ in zip(args, e["args"])):
+                    return ("K", p, tuple(args))  # an associated function of a type defined elsewhere
+            if self.lenient_opaque and "::" not in p and p not in env and p[:1].islower() and p not in ("max", "min"):
+                args = [self.eval(a, env, uses) for a in e["args"]]
+                if any(isinstance(a, (Sink, MMap)) and n_.get("k") == "Ref" and n_.get("mut") for a, n_ in zip(args, e["args"])):
+                    raise Unsupported("unknown function %s takes a collection it may change" % p)
+                return ("K", p, tuple(args))  # a function defined elsewhere: opaque result
         if k == "MethodCall":
             m = e["method"]
             recv = self.eval(e["recv"], env, uses)
@@ -421,6 +455,8 @@ class PassWorld(World):
                 if len(owners) == 1:
                     args = [self.eval(a, env, uses) for a in e["args"]]
                     return self.call_fn(self.methods[(owners[0], m)][0], [recv] + args)
+            if isinstance(recv, tuple) and recv and recv[0] == "V" and m in ("clone", "to_owned", "borrow", "as_ref", "as_mut", "deref") and not e["args"] and (recv[1], m) not in self.methods:
+                return recv
             if isinstance(recv, tuple) and recv and recv[0] == "V":
                 args = [self.eval(a, env, uses) for a in e["args"]]
                 ty = recv[1]
@@ -453,6 +489,19 @@ class PassWorld(World):
                 for k_ in env:
                     if k_ in env2:
                         env[k_] = env2[k_]
+        if k == "For":
+            itv = self.eval(e["iter"], env, uses)
+            if isinstance(itv, (Sink, MSet_types())):
+                itv = Iter(list(itv.items))
+            env["__it"] = itv
+            try:
+                return super().eval(dict(e, iter={"k": "Path", "path": "__it", "line": e.get("line", 0)}), env, uses)
+            finally:
+                env.pop("__it", None)
+        if k == "Macro" and last(e["name"]) == "vec" and e.get("parsed"):
+            sk = Sink()
+            sk.items = [self.eval(x, env, uses) for x in e["args"]]
+            return sk
         if k == "Macro":
             name = last(e["name"])
             if name in ("trace", "debug", "info", "warn", "error"):
@@ -490,6 +539,13 @@ class PassWorld(World):
             else:
                 raise Unsupported("compound assignment %s on %r" % (e["op"], a))
             return ("T", ())
+        if k == "Binary" and e["op"] in ("+", "-", "*"):
+            a, b = self.eval(e["l"], env, uses), self.eval(e["r"], env, uses)
+            if isinstance(a, int) and isinstance(b, int) and not isinstance(a, bool) and not isinstance(b, bool):
+                return {"+": a + b, "-": a - b, "*": a * b}[e["op"]]
+            if self.lenient_opaque:
+                return ("K", e["op"], (a, b))  # string concatenation / arithmetic on opaque values
+            raise Unsupported("binary %s on %r" % (e["op"], a))
         if k == "Binary" and e["op"] in ("|", "&") :
             a, b = self.eval(e["l"], env, uses), self.eval(e["r"], env, uses)
             if isinstance(a, bool) and isinstance(b, bool):
@@ -504,6 +560,8 @@ class PassWorld(World):
         return super().eval(e, env, uses)
 
     def _free_call(self, name, args):
+        if last(name) in self.stubs:
+            return self.stubs[last(name)](args)
         fn = self.free.get(last(name))
         if fn is None:
             return ("K", last(name), tuple(args))
